@@ -121,7 +121,7 @@ func runC15(e *env) {
 			}
 		}
 		cases = append(cases, fmt.Sprintf("{| c15_prog := %s;\n c15_enums := %s;\n c15_ana := %s;\n c15_runs := %s;\n c15_vals := %s |}", obs[i].Facts, obs[i].Enums, obs[i].Ana, coqList(runs), coqListNL(vals)))
-		inputs = append(inputs, map[string]interface{}{"module": spec, "returned": returned, "class": cls})
+		inputs = append(inputs, map[string]interface{}{"module": spec, "returned": returned, "class": cls, "class_scope": "property-only"})
 		if len(cases) == 4 {
 			e.writeCases2(fmt.Sprintf("cases_C15_%d", len(e.m.CaseFiles)), anaHeader+"From GM Require Import Model.RandData Sem.GoJson Sem.GoVal Sem.RandSem Corr.Check_C15.\nLocal Open Scope Z_scope.\nNotation rc := Build_rcall.\n", "mismatches", "prop_failures", cases, inputs)
 			cases, inputs = nil, nil
@@ -168,6 +168,7 @@ func corpusRand() []*modSpec {
 		mk("rand-imported-package-named-like-the-analysed-one", "package models\n\nimport shared \"example.com/org/models/shared/models\"\n\ntype Order struct {\n\tStatus shared.Status\n\tCurrency shared.Currency\n\tHistory []shared.Status\n}\n",
 			modFile{"shared/models/models.go", "package models\n\ntype Status int\n\nconst (\n\tPending Status = iota + 1\n\tPaid\n\tShipped\n)\n\ntype Currency string\n\nconst (\n\tEUR Currency = \"EUR\"\n\tUSD Currency = \"USD\"\n)\n\ntype Payment interface{ isPayment() }\ntype Card struct{ N int }\ntype Cash struct{ Amount int }\n\nfunc (Card) isPayment() {}\nfunc (Cash) isPayment() {}\n"}),
 		mk("rand-embedded-pointer", "package models\n\ntype Audit struct {\n\tAuthor string\n\tAt int\n}\n\ntype Meta struct{ Tags []string }\n\ntype Record struct {\n\t*Audit\n\tMeta\n\tTitle string\n}\n"),
+		mk("rand-maps-with-few-keys", "package models\n\ntype Color int\n\nconst (\n\tRed Color = iota\n\tGreen\n\tBlue\n)\n\ntype Level string\n\nconst (\n\tLow Level = \"low\"\n\tHigh Level = \"high\"\n)\n\ntype Palette struct {\n\tWeights map[Color]int\n\tLevels map[Level][]int\n\tNames map[string]Color\n}\n"),
 		mk("rand-empty", "package models\n\ntype Empty struct{}\ntype OnlyHidden struct{ a int }\ntype Zero [0]int\n\ntype S struct {\n\tE Empty\n\tO OnlyHidden\n\tZ Zero\n}\n"),
 	}
 }
